@@ -107,7 +107,7 @@ class OrderMonitor:
 
 
 CLIENT_MODES = ["tofu", "ca+tofu", "tofu", "clientcert+tofu"]
-SPELLINGS = ["127.0.0.1", "pinned.test", "localhost", "Pinned.Test", "127.0.0.1", "PINNED.TEST", "LocalHost", "pinned.TEST", "localhost"]
+SPELLINGS = ["127.0.0.1", "pinned.test", "localhost", "Pinned.Test", "127.0.0.1", "PINNED.TEST", "LocalHost", "pinned.TEST", "localhost", "pinned.test.", "127.0.0.1", "Pinned.Test."]
 
 
 def run(ctx):
@@ -159,7 +159,7 @@ def run(ctx):
     modes = ["eager", "lazy", "after-client-done"]
     try:
         with peers.ScriptedPeer(idents["good"], behaviour, name="main") as peer, peers.ScriptedPeer(idents["good"], behaviour, name="second") as peer2, \
-                peers.HostMap({"pinned.test": "127.0.0.1", "a_b.test": "127.0.0.1", "axb.test": "127.0.0.1", "a-b.test": "127.0.0.1", "ab.test": "127.0.0.1", "a_b.test.": "127.0.0.1"}), OrderMonitor() as mon:
+                peers.HostMap({"pinned.test": "127.0.0.1", "pinned.test.": "127.0.0.1", "a_b.test": "127.0.0.1", "axb.test": "127.0.0.1", "a-b.test": "127.0.0.1", "ab.test": "127.0.0.1", "a_b.test.": "127.0.0.1"}), OrderMonitor() as mon:
             k = 0
             for situation in situations:
                 for op, size in ops:
